@@ -831,6 +831,10 @@ def cone_heads():
         obs, _ = check_function("rsome.gcp:Model.do_math(primal)", setup, lambda ns: ns["layer"].primal if ns["layer"].primal is not None else ns["layer"].do_math(),
                                 [post("every-cone-head-has-a-non-negative-lower-bound", heads)], mode="D", label=name, bounded=True, max_paths=600)
         out += obs
+        # the dual formulation is a program of its own (it is what a robust counterpart embeds, and a user may solve it)
+        obs, _ = check_function("rsome.socp:Model.do_math(primal=False)", setup, lambda ns: ns["layer"].do_math(primal=False),
+                                [post("every-cone-head-of-the-dual-has-a-non-negative-lower-bound", heads)], mode="D", label=name + ",dual", bounded=True, max_paths=600)
+        out += obs
     return out
 
 
